@@ -370,6 +370,21 @@ Proof.
   rewrite E1. cbn [bind]. rewrite <- print_key_kvs. apply decryption_key_text, H.
 Qed.
 
+Lemma none_scan_stays : forall l a, snd (fold_left none_scan l (a, false)) = false.
+Proof.
+  induction l as [|[k v] l IH]; intros a; [reflexivity|]. cbn [fold_left]. unfold none_scan at 2. cbn [fst snd].
+  destruct (str_eqb k s_METHOD && str_eqb v s_NONE); [apply IH|].
+  destruct (str_eqb k s_METHOD || str_eqb k s_URI || str_eqb k s_IV || str_eqb k s_KEYFORMAT || str_eqb k s_KEYFORMATVERSIONS); apply IH.
+Qed.
+Lemma key_kvs_not_none : forall d, k_method d = 0 \/ k_method d = 1 -> is_method_none (key_kvs d) = false.
+Proof.
+  intros d Hm. unfold is_method_none, key_kvs.
+  match goal with |- context [fold_left none_scan (?x :: ?tl) _] => remember tl as tail end.
+  cbn [fold_left].
+  assert (E : none_scan (false, true) (s_METHOD, enum_print enum_EncryptionMethod (k_method d)) = (false, false)).
+  { destruct Hm as [-> | ->]; reflexivity. }
+  rewrite E. rewrite none_scan_stays. apply andb_false_r.
+Qed.
 Theorem xkey_text : forall k, match k with Some d => wf_key d = true | None => True end ->
   parse_xkey (print_xkey k) = Ok k /\ good_line (print_xkey k) = true.
 Proof.
@@ -378,17 +393,11 @@ Proof.
   assert (Hne : key_kvs d <> []) by (unfold key_kvs; discriminate).
   unfold print_xkey, parse_xkey. rewrite print_key_kvs.
   split; [|apply printed_line_good; try assumption; pfx_ok].
-  destruct (tag_attrs pfx_ExtXKey (key_kvs d) ltac:(pfx_ok) ltac:(pfx_ok) Hf Hne) as [E1 _].
-  rewrite E1. cbn [bind].
-  destruct (render_kvs_good _ Hf Hne) as [G1 _].
-  assert (Ht : trim (render_kvs (key_kvs d)) = render_kvs (key_kvs d)).
-  { apply trim_edges; [reflexivity | exact G1]. }
-  rewrite Ht.
+  destruct (tag_attrs pfx_ExtXKey (key_kvs d) ltac:(pfx_ok) ltac:(pfx_ok) Hf Hne) as [E1 E2].
+  rewrite E1. cbn [bind]. rewrite E2.
   assert (Hm : k_method d = 0 \/ k_method d = 1).
   { unfold wf_key in H. repeat (apply andb_true_iff in H; destruct H as [H _]). apply N.ltb_lt in H. lia. }
-  assert (Hno : str_eqb (render_kvs (key_kvs d)) s_METHOD_NONE = false).
-  { unfold key_kvs. destruct Hm as [-> | ->]; reflexivity. }
-  rewrite Hno. rewrite <- print_key_kvs, (decryption_key_text d H). reflexivity.
+  rewrite (key_kvs_not_none d Hm). rewrite <- print_key_kvs, (decryption_key_text d H). reflexivity.
 Qed.
 
 (* ================= EXT-X-START ================= *)
